@@ -146,6 +146,12 @@ class SymStr:
             return mkbytes(out)
         raise Unsupported("SymStr.encode(%r)" % encoding)
 
+    def __getattr__(self, name):
+        # a str method this proxy does not model: inconclusive, not a crash that looks like a finding
+        if hasattr(str, name) and not name.startswith("__"):
+            raise Unsupported("SymStr.%s" % name)
+        raise AttributeError(name)
+
     def _find(self, sep):
         c = _cps_of(sep)
         if c is None:
